@@ -44,10 +44,17 @@ pub struct Recorded {
     pub classes: crate::driver::Classes,
     pub excluded: u64,
     pub faults_hit: u32,
+    pub hard_faults_hit: u32,
+    pub layout: Option<crate::driver::Layout>,
 }
 
 /// Execute the history of `case` in stepped mode and return the recording.
 pub fn record(case: &Case, avoid_reappend: bool, settle_at_end: bool) -> Result<Recorded, Fail> {
+    record_with(case, avoid_reappend, settle_at_end, |_| Ok(())).map(|x| x.0)
+}
+
+/// Like `record`, with extra work on the live store at the end of the history.
+pub fn record_with<T>(case: &Case, avoid_reappend: bool, settle_at_end: bool, at_end: impl FnOnce(&mut Run) -> Result<T, Fail>) -> Result<(Recorded, T), Fail> {
     let (r, ctl) = with_run(&case.cfg, true, &case.faults, |run| {
         run.avoid_low_reappend = avoid_reappend;
         for op in &case.ops {
@@ -75,10 +82,11 @@ pub fn record(case: &Case, avoid_reappend: bool, settle_at_end: bool) -> Result<
         if settle_at_end {
             run.run_to_idle();
         }
-        Ok((run.model.clone(), run.flushes.clone(), run.records_after_op.clone(), run.classes.clone(), run.excluded))
+        let t = at_end(run)?;
+        Ok((run.model.clone(), run.flushes.clone(), run.records_after_op.clone(), run.classes.clone(), run.excluded, run.layout.clone(), t))
     })?;
-    let (model, flushes, records_after_op, classes, excluded) = r;
-    Ok(Recorded { trace: ctl.trace, names: ctl.names, model, flushes, records_after_op, classes, excluded, faults_hit: ctl.faults_hit })
+    let (model, flushes, records_after_op, classes, excluded, layout, t) = r;
+    Ok((Recorded { trace: ctl.trace, names: ctl.names, model, flushes, records_after_op, classes, excluded, faults_hit: ctl.faults_hit, hard_faults_hit: ctl.hard_faults_hit, layout }, t))
 }
 
 /// Bounds of the prefix a recovery may show when the crash happens with `q` events done.
